@@ -18,6 +18,7 @@ type c04PubFS struct {
 }
 
 func (f *c04PubFS) WriteAtomic(b []byte, _ string, _ fs.Mode) (int, error) {
+	c05Settle() // natively: let directory removals that were already started (detached goroutines) land first
 	f.events = append(f.events, "M:"+string(b))
 	return len(b), nil
 }
